@@ -69,13 +69,18 @@ def make_events(f, idx, ns, quick, seed, budget, only=None):
         for fi, form in enumerate(forms):
             rems = [""]
             if t["has_value_child"]:
-                rems += ["/5", "/Abc def", "/3 m-per-s^2", "/Cafe\u0301 5 \u212b"]         # not in Unicode normal form C
+                rems += ["/5", "/Abc def", "/3 m-per-s^2", "/Cafe\u0301 5 \u212b",          # not in Unicode normal form C
+                         "/" + t["name"], "/" + t["name"].lower() + "/x"]                  # a value that spells the tag's own name
             else:
                 rems += ["/Extx", "/Extx/Exty", "/" + names[(n * 7 + fi) % len(names)], "/Re\u0301sume\u0301-\u2126"]
             for ri, rem in enumerate(rems):
                 for ci in range(4):
                     n += 1
-                    if quick:
+                    # spellings whose first term also ENDS the name of one of the node's ancestors ("Temporal-value/..." below
+                    # "Spatiotemporal-value") are always kept: the class named in the property's rationale
+                    special = fi > 0 and any(a.casefold().endswith(form.split("/")[0].casefold()) and a.casefold() != form.split("/")[0].casefold()
+                                             for a in t["long"].split("/")[:-1])
+                    if quick and not special:
                         h = int(hashlib.sha1(("%s|%s|%d|%d|%d" % (f.version, t["long"], fi, ri, ci)).encode()).hexdigest()[:8], 16)
                         if (h + seed) % budget:
                             continue
